@@ -71,6 +71,12 @@ def main(argv):
         len(done), len(undecided), len(allobls), time.time() - t0))
     for c, why in undecided:
         print("UNDECIDED", contract_name(c), why)
+    if os.environ.get("VC_DUMP"):
+        os.makedirs(os.environ["VC_DUMP"], exist_ok=True)
+        for i, o in enumerate(allobls):
+            if os.environ.get("VC_DUMP_MATCH", "") in o.name:
+                with open(os.path.join(os.environ["VC_DUMP"], "%04d.smt2" % i), "w") as f:
+                    f.write("; " + o.name + "\n" + solve.to_smt2(o.assumptions, o.goal, o.kind == "cover"))
     res = solve.discharge(allobls, timeout_ms=int(os.environ.get("VC_TIMEOUT_MS", "10000")))
     bad = 0
     for r in res:
